@@ -442,9 +442,9 @@ def run(tier, seed):
     rng = random.Random(seed * 7919 + 5)
     nh = 400 if thorough else 60
     nv = 0
-    for cap in (1, 2, 4, 7, 15, 20):
+    for cap in (1, 2, 4, 7, 15, 20, 40):
         for pol in ("min", "max"):
-            trs = [record_history(Heap, cap, pol, rng, rng.randrange(10, 60 if cap < 15 else 300), rng.choice([2, 3, 5, 50])) for _ in range(nh)]
+            trs = [record_history(Heap, cap, pol, rng, rng.randrange(10, 60 if cap < 15 else (300 if cap < 40 else 500)), rng.choice([2, 3, 5, 50])) for _ in range(nh)]
             rep.sample({"cap": cap, "policy": pol, "first_ops": trs[0]["ops"][:6]}, limit=3)
             nv += judge_histories(rep, cap, pol, trs, "%d%s" % (cap, pol))
     # ---- C (ii): behaviours generated by TLC (-simulate) for larger capacities, replayed and judged
